@@ -3,7 +3,7 @@ HEADER = '''(* C04  Table initialisation accepts exactly the well-formed tables.
    model Model/RegTable.v (reg_init mirrors register_init step by step and is tied to it by correspondence over the layout grid).
    The post-state is proved for plain tables (all areas memory-backed and default-loading); for tables with callback-backed, read-only
    or skip-defaults areas it is correspondence-tested only. *)'''
-IMPORTS = '''From Ufw Require Import Base.Bits Model.RegTable Proof.RegLemmas Proof.RegInitLemmas Proof.RegInvariant Proof.RegMemory Proof.RegBlockInv Proof.RegInitInv Proof.RegInitZero.
+IMPORTS = '''From Ufw Require Import Base.Bits Model.RegTable Proof.RegLemmas Proof.RegInitLemmas Proof.RegInvariant Proof.RegMemory Proof.RegBlockInv Proof.RegInitInv Proof.RegInitZero Proof.RegLink.
 Local Open Scope N_scope.'''
 ITEMS = [
  ('C04_success_iff', 'init_success_iff', 'initialisation succeeds exactly when there is an area, the areas and the entries are each ordered and disjoint (every element starts at or behind the end of its predecessor), and the defaults load'),
@@ -16,6 +16,8 @@ ITEMS = [
  ('C04_first_break_is_first', 'first_break_some', 'the reported element is the first: everything before it is a chain'),
  ('C04_post_state', 'init_establishes_invariant', 'after a successful initialisation of a plain table (memory-backed, default-loading areas; no always-failing constraint; typed defaults) the entries are unchanged, every register reads back its default, and the constraint invariant of C05 holds'),
  ('C04_post_state_other_words_zero', 'init_other_words_zero', 'post-state, second half: every word of the table memory that no register covers is zero after a successful initialisation'),
+ ('C04_post_state_area_fields', 'init_area_fields', 'post-state, third part: the first / last / count fields of every area describe exactly the registers whose address lies in the area, a contiguous run of the register list'),
+ ('C04_link_fields_spec', 'link_area_spec', 'the same for the linking step alone, any ordered register list and any area'),
  ('C04_failure_uninitialised', 'init_failure_uninit', 'a failed initialisation leaves the table uninitialised'),
  ('C04_flag_iff_success', 'init_flag_iff_success', 'the initialised flag is set exactly by a successful initialisation'),
  ('C04_uninitialised_operations', 'uninit_everything', 'on an uninitialised table every operation reports UNINITIALISED and changes nothing'),
